@@ -970,6 +970,7 @@ def c09(tier, seed):
     nodes = 0
     skipped = 0
     wruns = 0
+    nohook = 0
     keys = set()
     for out, res in core.pmap(judge, outs):
         run.cov["traces_validated_against_impl"] += 1
@@ -986,6 +987,8 @@ def c09(tier, seed):
                     run.sample({"fen": e["fen"], "prefix": e["pre"], "depth": e["d"], "tree_nodes": e["n"], "engine_runs": e["runs"]})
             else:
                 skipped += 1
+                if e.get("skip") == "window hook not built":
+                    nohook += 1
         for f in res["fails"]:
             if f["p"] == "HARNESS":
                 run.notes.append("tree skipped: " + f["w"])
@@ -1004,6 +1007,9 @@ def c09(tier, seed):
     run.cov["cases_skipped_too_large_or_trivial"] = skipped
     run.cov["window_cases"] = nwin_cases
     run.cov["window_searches_judged"] = wruns
+    if nohook:
+        run.notes.append("the window-search hook (search::verif_window_search) does not compile against this tree; %d window cases were "
+                         "skipped and C09 was decided on root searches only - adapt the hook to the new signature" % nohook)
     run.cov["rule"] = ("one case = (position, depth): the full tree is dumped from the real engine (<= 60000 nodes, else skipped), the real "
                        "search is run table-less with a fresh and with randomly pre-filled history tables (3-4 ordering states), and TLC "
                        "evaluates RefSearch!RefValue on the tree; trees with a moveless capture-extension node and roots with <= 1 move are "
